@@ -36,4 +36,62 @@ PROPS = {
         "trusted_base": COMMON_TB,
         "assumptions": ["only SSH (ed25519) keys are generated; GPG / Sigstore verification paths are not modelled"],
     },
+    "C13": {
+        "test": "TestC13",
+        "lean_modules": ["Gittuf.Props.C13"],
+        "n": {"quick": 800, "thorough": 20000},
+        "min_per_shard": 100,
+        "rule": "random sequences of 5-25 edits on real tufv01/tufv02 objects (60% rule files, 40% roots; 30% legacy schema): "
+                "AddRule/UpdateRule/RemoveRule/ReorderRules/Add-/Update-/RemovePrincipal resp. Add-/Delete- root and primary-rule-file "
+                "principals, threshold updates, global rules, propagation directives (modelled) and hooks, controller/network, version, "
+                "location edits (unmodelled, judged for refused=>unchanged and reload only); arguments from small pools incl. undefined and "
+                "repeated principal ids, thresholds -1..5, reserved / allow-rule / empty names, nil and foreign principal types, invalid hook "
+                "stages. After every edit the error class and a canonical dump of the real object are compared with the model and the "
+                "invariant is evaluated on the dump; finally the object is marshalled/unmarshalled with encoding/json and (legacy) migrated "
+                "to v02 and the dumps compared. non-trivial = at least one accepted modelled edit changed the object; distinct by input hash.",
+        "trusted_base": COMMON_TB,
+        "assumptions": ["uniqueness of rule names across rule files (repository API layer) is not covered",
+                        "Matches() is compared at the level of the pattern lists, fnmatch itself is not modelled",
+                        "GitHub-app entries are not edited"],
+    },
+    "C06": {
+        "test": "TestC06",
+        "lean_modules": ["Gittuf.Props.C06"],
+        "n": {"quick": 600, "thorough": 20000},
+        "rule": "random delegation graphs of <=4 rule files x <=3 rules (+ trailing allow rule, 6% of files without it); patterns from literal / prefix-glob / '?' / catch-all forms over git: and file:; any terminating flags; half with unique rule names (forests, plus a rule named 'targets'), half with free names (cycles, self loops, diamonds); per-file principal definitions, 15% with the same person id defined with different keys in different files, 6% with ids a rule's own file does not define; 10 paths per graph covering match / no-match of every pattern. Each case = one graph x all paths: the real State.FindVerifiersForPath on a State holding only the metadata envelopes, and for 20% also through State.Commit + LoadCurrentState(BypassRSL) (the loader refuses duplicated names: ErrDuplicatedRuleName, predicted by the model). Compared: exact ordered list of (name, threshold, principals with keys) per path; non-trivial = some path has a verifier and the policy has a delegated file; distinct by input hash.",
+        "trusted_base": COMMON_TB,
+        "assumptions": ["bracket classes of fnmatch are not modelled and not generated",
+                        "verifier principals are read from the unexported field by reflection in the harness"],
+    },
+    "C14": {
+        "test": "TestC14",
+        "lean_modules": ["Gittuf.Props.C14"],
+        "n": {"quick": 1500, "thorough": 30000},
+        "rule": "22% entries recorded through the real API (NewReferenceEntry / NewAnnotationEntry / NewPropagationEntry + Commit or "
+                "CommitWithoutNumber on scratch repositories; UTF-8 reference names git accepts incl. Unicode blanks inside and, rarely, at the "
+                "ends (F11); 40/64-hex ids; 1..9 referenced entries; messages with PEM markers, CR/LF, NUL, empty, 45..500 bytes; upstream "
+                "locations with ':'; numbers 0, 1, 2^63, 2^64-1) read back with GetCommitMessage + ParseEntryText; 78% texts given to "
+                "ParseEntryText: valid texts, 1-3 structured mutations (drop / duplicate / move / swap / rename / foreign fields, case, CR/LF, "
+                "Unicode and near-Unicode blanks at every field end, number and id games, PEM games), byte mutations, token and byte fuzz. "
+                "Panics are recovered per case and are violations. Compared: ok/error class, error kind, all parsed fields; the model "
+                "renderer is compared with the stored commit message. non-trivial = recorded, accepted, or rejected after a valid header; "
+                "distinct by input hash.",
+        "trusted_base": COMMON_TB + ["git commit-tree / git show store and return the commit message unchanged for the generated (UTF-8, NUL-free) texts: checked on every recorded case"],
+        "assumptions": ["annotation round trip assumes the modelled encoding/pem + base64 contract PemRoundTrip (decidable; evaluated by the driver on every recorded annotation)",
+                        "recorded reference names and upstream locations are valid UTF-8 without line breaks (git commit-tree rewrites other bytes as Latin-1; see corpus/C14/candidates)"],
+    },
+    "C07": {
+        "test": "TestC07",
+        "lean_modules": ["Gittuf.Props.C07"],
+        "n": {"quick": 30, "thorough": 800},
+        "min_per_shard": 8,
+        "rule": "recovery patterns on a real repository: 2-8 pushes over one or two protected references, each independently valid or "
+                "violating (signed by a key outside the rule), tree-new or tree-same as an earlier entry; structured episodes "
+                "good/bad+/revoke(possibly incomplete, possibly recorded after the fix)/fix(possibly wrong tree, unauthorized or itself "
+                "revoked) and fully random placements; one annotation may cover several entries; policy and attestation entries interleaved. "
+                "Verified in full / from-entry / latest-only mode with the real verifier, compared with the Lean model; the declarative "
+                "'tolerated' predicate is evaluated on every accepted range. non-trivial and distinct as for C01.",
+        "trusted_base": COMMON_TB,
+        "assumptions": ["principals share no keys; tags are not generated"],
+    },
 }
